@@ -4,7 +4,9 @@ from __future__ import annotations
 
 import itertools
 
-from ..common import Check
+import json
+
+from ..common import CORPUS, Check
 from ..lockstep import Case, lockstep
 from ..simrun import CompSim
 
@@ -15,8 +17,8 @@ META = {
     "encoders) simulates a bounded dictionary (association list with capacity) under the invariant 'valid keys "
     "pairwise distinct'; lock-step correspondence of the model with the real component in pysim",
     "level_text": "c24_refines (every history that never pushes a present key: all results of read/write/remove/push "
-    "equal those of the bounded dictionary), c24_read/c24_write/c24_remove/c24_push/c24_push_ready (one-cycle laws "
-    "incl. simultaneous calls, remove wins over write), c24_keys_distinct (invariant) are proved for every entry "
+    "equal those of the bounded dictionary), c24_read/c24_write_remove_push/c24_remove_wins/c24_push_ready (one-cycle "
+    "laws incl. simultaneous calls, remove wins over write), c24_keys_distinct (invariant) are proved for every entry "
     "count; the model is tied to the code by cycle-exact comparison of done bits, results and push readiness for "
     "entry counts 1..9 (thorough: ..17) with all four methods attempted simultaneously; pushes of present keys "
     "(outside the hypothesis) are compared model-vs-implementation only",
@@ -217,9 +219,18 @@ def gen_cases(ctx: Check):
                 for seq in itertools.product(alpha, repeat=L):
                     good.append(Case(f"cfg n={n}", list(seq), d, "exhaustive"))
             rr = ctx.rng("ex3")
-            for seq in rr.sample(list(itertools.product(alpha, repeat=3)), 20000):
-                good.append(Case(f"cfg n={n}", list(seq), d, "exhaustive-sample"))
+            for _ in range(10000):
+                good.append(Case(f"cfg n={n}", [rr.choice(alpha) for _ in range(3)], d, "exhaustive-sample"))
     return good, malformed
+
+
+def _corpus() -> list[Case]:
+    """directed cases and minimised past failures (mutation runs), run first on every invocation"""
+    out = []
+    for f in sorted((CORPUS / "C24").glob("*.json")):
+        body = json.loads(f.read_text())
+        out.append(Case(body["cfg"], list(body["ops"]), body["desc"], "corpus"))
+    return out
 
 
 def more_cases(case: Case, rng):
@@ -247,6 +258,7 @@ def run(ctx: Check):
     )
     ctx.proof_stage()
     good, malformed = gen_cases(ctx)
+    good = _corpus() + good
     for c in good:
         ctx.count(f"entries_{c.desc['n']}")
     # one batch: histories pushing present keys (tag "malformed", outside the hypothesis) are compared
